@@ -110,7 +110,7 @@ TEXT = {
                  "it (T2), hence it stops being Reserved with the last such peer (T3), and requests name only advertised, lacking pieces (T4). Invariant proved "
                  "preserved by every step and lifted by induction over the history. And kernel-checked for the WHOLE CLIENT (Props/C12Whole: any number of connection tasks and the manager in closed loop, "
                  "any interleaving, any peer input, nothing assumed about which commands arrive when): the invariant holds in every reachable state (T6), a Reserved piece has a live connection task, not choked by its peer, "
-                 "whose piece_rx is that piece (T7), without such a task a piece is not Reserved (T8), and no command a live task sends makes the manager panic (T9: assignments for PieceDone/PieceCancel and the Have index bound derived from the task model; T10 over the closed loop in which tasks are created with the torrent's piece count: the only premise left is that an accepted bitfield is decoded to as many bits as there are pieces). Tied to the real Session by command histories compared after every command and by closed-loop runs of the real manager with real connection tasks.",
+                 "whose piece_rx is that piece (T7), without such a task a piece is not Reserved (T8), and no command a live task sends makes the manager panic (T9: assignments for PieceDone/PieceCancel and the Have index bound derived from the task model; T11 over the closed loop in which tasks are created with the torrent's piece count: the index bound of Have, the decodability and length of a passed-on bitfield (to_vec of validated bytes) and the tasks' piece count are all derived, no premise about which commands arrive when). Tied to the real Session by command histories compared after every command and by closed-loop runs of the real manager with real connection tasks.",
         "note": KERNEL + "the connection task's piece_rx discipline is part of the model (rx field) and is tied to the real task by the handler-level checks; "
                 "assumed: live connections have distinct addresses; mpsc delivery is FIFO per task.",
         "technique": "Lean 4 proof (state invariant by induction over event histories; accounting lemma for release/reserve) + differential correspondence on command histories",
